@@ -55,6 +55,9 @@ type ModelDriver struct {
 	volume    uint64
 	// UpdateReports makes UpdateURR return a usage report, as gtp5g does when it restarts the measurement.
 	UpdateReports bool
+	// Refuse, when set, names rules whose creation the data plane turns down (as gtp5g does for content it cannot take):
+	// the create call fails before anything is stored
+	Refuse func(kind string, seid uint64, id uint32) bool
 	// Hook, when set, runs at the start of every call on the caller's (the event loop's) goroutine; it may block to keep the loop busy.
 	Hook func(op, kind string, seid uint64, id uint32)
 }
@@ -176,7 +179,13 @@ func (d *ModelDriver) do(op, kind string, seid uint64, id uint32, body *ie.IE) e
 			}
 		}
 	}
+	if op == "create" && mode == "" && d.Refuse != nil && d.Refuse(kind, seid, id) {
+		mode = "refused"
+	}
 	switch mode {
+	case "refused":
+		err = fmt.Errorf("refused by the data plane")
+		c.Faulted = "refused"
 	case "before":
 		err = fmt.Errorf("injected fault (before apply)")
 		c.Faulted = "before"
